@@ -298,7 +298,7 @@ func TestC14(t *testing.T) {
 			}
 		}
 	})
-	p.Quick, p.Thorough = 20000, 100000
+	p.Quick, p.Thorough = 20000, 400000
 	RunProp(t, p)
 }
 
